@@ -4,7 +4,7 @@
    not depend on which select arms exist), every population of senders and every schedule. *)
 From FMP Require Import Base.Bytes Base.Lts Model.Events Model.Skeleton Model.Props Model.Writer
      Proofs.WriterProofs Proofs.SkeletonProofs.
-From FMP Require Import Model.Paths Proofs.PathProofs.
+From FMP Require Import Model.Paths Proofs.PathsC13.
 From FMP Require Import Model.CodecCfg Proofs.CodecCfgProofs.
 Open Scope Z_scope.
 
